@@ -180,9 +180,27 @@ def one_case(ctx, prog, spec=None, label="gen"):
     ctx.hit("pyswarms" if pyswarms else "fitness")
 
     # ---- correspondence
+    # `ll + sum(log priors)` is a float sum: CPython >= 3.12 sums exact floats with compensation and
+    # numpy scalars without, so the last bits depend on the argument type; cancellation amplifies
+    # this. Values are compared with an absolute tolerance scaled by the size of the terms.
+    def scale_of(c):
+        try:
+            terms = [abs(float(p.log_prior_from_value(x))) for p, x in zip(priors, c["v"])]
+            o = abs(c["o"]) if not isinstance(c["o"], str) else 0.0
+            sc = o + sum(t for t in terms if t == t and t != float("inf"))
+            return sc if sc == sc and sc != float("inf") else 0.0
+        except Exception:
+            return 0.0
+
+    def same_value(a, b, c):
+        if close(a, b, ulps=ulps):
+            return True
+        return abs(a - b) <= 1e-11 * max(scale_of(c) * 2.0, 1e-300) if cfg_posterior else False
+
+    cfg_posterior = pyswarms or not cfg["fom_is_ll"]
     m_results = [r if r == "raises" else h2f(r) for r in ans["results"]]
     for k, (a, b) in enumerate(zip(impl_results, m_results)):
-        same = (a == b) if isinstance(a, str) or isinstance(b, str) else close(a, b, ulps=ulps)
+        same = (a == b) if isinstance(a, str) or isinstance(b, str) else same_value(a, b, calls[k])
         if not same:
             ctx.disagree("C04.result", case | {"call": k}, a if isinstance(a, str) else repr(a), b if isinstance(b, str) else repr(b))
             break
@@ -218,7 +236,7 @@ def one_case(ctx, prog, spec=None, label="gen"):
         if isinstance(got, str):
             ctx.fail("C04-exception-escapes", "an exception escaped from the fitness call where a figure of merit or the resample value is due",
                      case | {"call": k}, got)
-        elif not close(got, want, ulps=max(ulps, 4)):
+        elif not (close(got, want, ulps=max(ulps, 4)) or same_value(got, want, c)):
             ctx.fail("C04-wrong-fom", "figure of merit is not ll (+ sum of log priors) (x -2) / the resample value", case | {"call": k},
                      {"got": got, "want": want})
         ctx.hit("call:" + ("success" if ok else "resample"))
